@@ -139,6 +139,12 @@ type Sim struct {
 	// Accomplice >= 0 (with Template): the Byzantine dealer Dealer/byz[0] and the Byzantine participant Accomplice cooperate:
 	// the dealer publishes an answer "for" the accomplice and the accomplice complains, each at a generated point of a
 	// generated round, in either order, around whatever happens to the honest victim.
+	// Template dimensions around the victim: the dealer publishes an answer for the victim on its own initiative (1 = the
+	// correct value, 2 = a wrong one) at a generated point of round EarlyAnswerRound, possibly before the victim has
+	// complained, and (VectorLast) broadcasts its verification vector after its other round-1 broadcasts.
+	VictimEarlyAnswer                 int
+	EarlyAnswerRound                  int
+	VectorLast                        bool
 	Accuse                            bool
 	Accomplice                        int
 	AccDealer                         int
@@ -544,6 +550,21 @@ func scalar32(x *big.Int) []byte {
 	return b
 }
 
+// overIndex draws a participant index that is out of range for this network, biased to the boundary: n itself half of
+// the time, otherwise n+1, 254, 255 or any value in [n, 255].
+func (s *Sim) overIndex(label string) byte {
+	switch s.G.Int(label+"Kind", 0, 5) {
+	case 0, 1, 2:
+		return byte(s.N)
+	case 3:
+		return byte(s.N + 1)
+	case 4:
+		return []byte{254, 255}[s.G.Pick(label+"Top", 2)]
+	default:
+		return byte(s.N + s.G.Int(label, 0, 255-s.N))
+	}
+}
+
 // faultDraw draws a fault kind in [0, max] at a fault point.  In template mode every fault point is honest (0) except the wildcard.
 func (s *Sim) faultDraw(label string, max int) int {
 	if !s.Template {
@@ -718,7 +739,7 @@ func (s *Sim) byzantine(d *delivery) {
 			s.class("answer:outOfRangeScalarOrIndex")
 			out := append([]byte{}, d.data...)
 			if g.Bool("answerBadIndex") {
-				out[1] = byte(s.N + g.Int("idxOver", 0, 255-s.N))
+				out[1] = s.overIndex("idxOver")
 			} else {
 				copy(out[2:], scalar32(scalarR))
 			}
@@ -736,6 +757,9 @@ func (s *Sim) byzantine(d *delivery) {
 func (s *Sim) vectorFault(d *delivery, di *DealerInfo) {
 	g := s.G
 	kind := s.faultDraw("vectorFault", 15)
+	if s.Template && s.VectorLast && kind <= 3 {
+		kind = 14
+	}
 	out := append([]byte{}, d.data...)
 	name := ""
 	delay := 0
@@ -893,6 +917,39 @@ func (s *Sim) injectTemplates() {
 			})
 		}
 	}
+	if s.Template && s.VictimEarlyAnswer > 0 && s.Round == s.EarlyAnswerRound {
+		for _, nd := range s.Nodes {
+			di := s.Dealers[nd.Idx]
+			if !nd.Byz || di == nil {
+				continue
+			}
+			b, v, wrong := nd.Idx, s.Victim, s.VictimEarlyAnswer == 2
+			s.plan(g.Int("earlyAnswerAfter", 0, 10), func() {
+				if di.Honest[v] == nil {
+					return
+				}
+				val := di.Honest[v]
+				if di.VectorFault == "alt" && di.Alt[v] != nil {
+					val = di.Alt[v]
+				}
+				kind := "template:dealerAnswersForVictimUnasked"
+				if wrong {
+					x := new(big.Int).SetBytes(val)
+					x.Add(x, big.NewInt(1)).Mod(x, scalarR)
+					if x.Sign() == 0 {
+						x.SetInt64(1)
+					}
+					val = scalar32(x)
+					kind += "WrongValue"
+				}
+				if _, complained := s.HonestComplaints[[2]int{v, b}]; !complained {
+					kind += "BeforeComplaint"
+				}
+				s.class(kind)
+				s.enqueue(&delivery{from: b, to: -1, broadcast: true, data: append([]byte{TagAnswer, byte(v)}, val...)}, 0)
+			})
+		}
+	}
 	if s.Accomplice >= 0 {
 		dl, x := s.AccDealer, s.Accomplice
 		if s.accAnswerRound == 0 {
@@ -938,7 +995,7 @@ func (s *Sim) injectOne(b int) {
 			case 1: // malformed complaint
 				s.class("inject:malformedComplaint")
 				if g.Bool("complaintBadIndex") {
-					s.enqueue(&delivery{from: b, to: -1, broadcast: true, data: []byte{TagComplaint, byte(s.N + g.Int("idxOver", 0, 255-s.N))}}, 0)
+					s.enqueue(&delivery{from: b, to: -1, broadcast: true, data: []byte{TagComplaint, s.overIndex("idxOver")}}, 0)
 				} else {
 					s.enqueue(&delivery{from: b, to: -1, broadcast: true, data: append([]byte{TagComplaint}, make([]byte, g.Int("complaintLen", 2, 4))...)}, 0)
 				}
@@ -965,7 +1022,9 @@ func (s *Sim) injectOne(b int) {
 				} else if g.Chance("answerMalformed", 1, 4) {
 					// an unsolicited answer that is malformed: scalar 0 / r / 2^256-1, or one byte short / long
 					kind = "inject:answerMalformed"
-					switch g.Int("answerMalformedKind", 0, 4) {
+					switch g.Int("answerMalformedKind", 0, 5) {
+					case 5:
+						c = int(s.overIndex("answerForOver")) // names a complainer that does not exist (value stays well-formed)
 					case 0:
 						val = make([]byte, 32)
 					case 1:
@@ -978,7 +1037,7 @@ func (s *Sim) injectOne(b int) {
 						val = append(val, 0)
 					}
 				}
-				if _, complained := s.HonestComplaints[[2]int{c, b}]; !complained && !s.Nodes[c].Byz {
+				if _, complained := s.HonestComplaints[[2]int{c, b}]; !complained && c < s.N && !s.Nodes[c].Byz {
 					kind += "BeforeComplaint"
 				}
 				s.class(kind)
